@@ -117,8 +117,10 @@ def obligations(tier, sc):
                "CPU-affinity channel is labelled (affinity: gindex+1 via PRV_NEXT = value added by cpu_add_to_pcf_type)",
         assumptions=["ghost recorder/pvt/prv/pcf/prf/bay/chan API recording calls (harness/C13/core.c)",
                      "loom_get_cpu/loom_find_thread/proc_find_thread answer NULL or a CPU/thread of the global lists",
-                     "known finding KF_CPU_PCF_TYPES excluded from the main query and confirmed by its own query"])
-    kf_local = [] if kf_listed("KF_CPU_PCF_TYPES") else ["KF_CPU_PCF_TYPES"]
+                     "cpu.pcf declares the CPU event types since the fix bdfd0ff (the former known finding is checked, not excluded)"])
+    # The finding was FIXED in /repo (commit bdfd0ff "fix: declare the CPU event types in cpu.pcf"):
+    # the obligation runs unguarded; C13_KF_CPU_PCF=1 re-enables the exclusion + confirmation pair.
+    kf_local = ["KF_CPU_PCF_TYPES"] if (os.environ.get("C13_KF_CPU_PCF") and not kf_listed("KF_CPU_PCF_TYPES")) else []
     obs.append(Obligation(
         name="core_connect_and_event", harness="C13/core.c", defines=list(kf_local),
         srcs=["src/emu/value.c"], incdirs=UT, native_cflags=NOLINK, unwind=17, timeout=600, desc=core_desc))
@@ -132,6 +134,14 @@ def obligations(tier, sc):
             expect_fail=True, witness=False)
         c.kf = dict(id="C13-cpu-pcf-types", what=KF_CPU_TEXT)
         obs.append(c)
+
+    obs.append(Obligation(
+        name="task_type_gid_range", harness="C13/gid.c", incdirs=UT, native_cflags=NOLINK, unwind=10, timeout=300,
+        desc=dict(functions=["task_get_type_gid"],
+                  symbolic="the 32-bit hash of the task-type label (all 2^32 values: the Jenkins hash is replaced by an arbitrary value)",
+                  bound="complete over hash values", out="which hash values real labels reach (over-approximated)",
+                  oracle="gid <= INT_MAX, gid >= PCF_RESERVED, (int) gid == gid: the .prv value (int64) is the value labelled in the .pcf ((int) gid)",
+                  assumptions=["HASH_VALUE of uthash replaced by an arbitrary 32-bit value"])))
 
     # ---- families 3 + 4 per model: types declared, labels present
     for m in MODELS:
